@@ -21,7 +21,7 @@ def pools(tier):
     full = [V.vnull(), V.vbool(True), V.vbool(False), V.vint(0), V.vint(1), V.vint(65536), V.vint(U32MAX), V.vint(U32MAX - 1),
             V.vstr(""), V.vstr("a"), V.vstr("{}"), V.vstr("{"), V.vstr("x{}y}}"), V.vstr("{{{}}}"), V.vstr("a.b"), V.vstr("é中"), V.vstr("b"), V.vstr("éé{}中{{x}}{}"),
             V.vlist(), V.vlist(V.vint(1), V.vstr("a")), V.vlist(V.vstr("a"), V.vstr("b")), V.vlist(V.vlist(V.vint(1)), V.vlist()),
-            V.vlist(V.vstr(""), V.vstr("usr"), V.vstr("")), V.vlist(V.vstr(""), V.vstr("")), V.vstr("/"), V.vstr("^$"),
+            V.vlist(V.vstr(""), V.vstr("usr"), V.vstr("")), V.vlist(V.vint(1), V.vint(1), V.vint(2)), V.vlist(V.vlist(V.vint(4), V.vint(4)), V.vlist(V.vint(4))), V.vlist(V.vstr(""), V.vstr("")), V.vstr("/"), V.vstr("^$"),
             {"t": "set", "e": [V.vint(1), V.vint(2)]}, {"t": "set", "e": []}, {"t": "set", "e": [V.vstr("a"), V.vstr("b")]},
             {"t": "syn", "n": 1}, {"t": "syn", "n": 3}, {"t": "syn", "n": 4}, V.vgn(0), V.vgn(1),
             V.vlist(V.vgn(0), {"t": "syn", "n": 1})]
